@@ -228,6 +228,7 @@ func c15(c *core.Ctx) {
 	})
 
 	var p2pClosure map[*ssa.Function]*ssa.Function
+	var netClosure map[*ssa.Function]*ssa.Function
 	c.Run("p2p-closure", func() {
 		p2pClosure = cgClosure(c, []*ssa.Function{c.Fn(p2p + ".Peer.readLoop"), c.Fn(p2p + ".serverEncHandshake"), c.Fn(p2p + ".clientEncHandshake")}, stop)
 	})
@@ -535,6 +536,7 @@ func c15(c *core.Ctx) {
 			c.Fn("network.ProtocolManager.handlePeer"), c.Fn("network.ProtocolManager.handleMsg"), c.Fn("network.ProtocolManager.rcvBlockLoop"),
 		}
 		cl := cgClosure(c, roots, stop)
+		netClosure = cl
 		// positive controls: the closure really contains the code that handles remote data
 		for _, spec := range []string{"chain/consensus.DPoVP.InsertBlock", "chain/consensus.DPoVP.InsertConfirms", "chain/transaction.TxProcessor.Process",
 			"chain/txpool.TxPool.AddTx", p2p + ".Msg.Decode", "common/crypto.AesDecrypt", "common/crypto/ecies.PrivateKey.Decrypt", "common/rlp.Stream.Decode", "chain/vm.Interpreter.Run"} {
@@ -648,6 +650,7 @@ func c15(c *core.Ctx) {
 	c15Locks(c)
 	// C15.8 (pointers that may be nil because of what a peer sent)
 	c15Nil(c)
+	c15Div(c, netClosure)
 
 	c.NotDecidedf("bounds and nil checks the rules above do not prove: slicing with variable bounds (e.g. ecies.Decrypt's c[:rLen], the rlp decoder's internal buffers), indexing, nil dereference of decoded pointers, integer division by zero, nil-map writes")
 	c.NotDecidedf("CPU exhaustion (e.g. respBlocks over a 4-billion range), memory held by many small well-formed messages, goroutine leaks")
